@@ -45,6 +45,9 @@ CHECKS = {
     "C09": hist("TestC09", 4000, 40, 25000, 60,
                 essential=["multi_field", "same_first_field_pair", "range", "delete_present"]),
     "C11": hist("TestC11", 4000, 40, 15000, 60,
+                extra_quick=[{"test": "TestC11Closure", "timeout": 600}],
+                extra_thorough=[{"test": "TestC11Closure", "timeout": 1200},
+                                {"test": "TestC11", "variant": "386", "checks": 8000, "steps": 60, "shards": 2, "timeout": 3000}],
                 essential=["inspath_pathsplit_long", "merge", "merge_crossing_inline_limit", "gained_node16", "gained_node48", "gained_node256",
                            "lost_node16", "lost_node48", "lost_node256"]),
     "C12": hist("TestC12", 1500, 60, 8000, 100,
